@@ -797,6 +797,74 @@ func TestVerifC38(t *testing.T) {
 		}
 	})
 
+	// ---- three-step histories: index under A, metadata-only update to B (writes .meta sidecars),
+	// full re-index under C (a content dimension of B changed). The result must be the index a fresh
+	// build under C gives, and IndexState(C) must be "equal" (a sidecar left over from step 2 must
+	// not shadow the metadata of the new shards).
+	{
+		var base c38Cfg
+		hists := 0
+		for _, md := range []int{c38RawConfig, c38URL, c38Templates, c38Metadata} {
+			for _, cd := range []int{c38BranchVersions, c38BranchNames, c38SizeMax, c38BranchCount} {
+				id := fmt.Sprintf("history A=base, meta update %s, full re-index with %s changed", c38DimNames[md], c38DimNames[cd])
+				if !r.Want(id) || r.Expired() {
+					continue
+				}
+				replay := map[string]any{"case": id}
+				b, c := base, base
+				b[md] = 1
+				c[md], c[cd] = 1, 1
+				fa, fc := getFresh(base), getFresh(c)
+				if fa.err != nil || fc.err != nil {
+					viol(len(pairs)+hists, "TOOL: build failed "+id, fmt.Sprint(fa.err, fc.err), replay)
+					continue
+				}
+				priv := filepath.Join(root, fmt.Sprintf("hist-%d", privSeq.Add(1)))
+				if err := c38CopyDir(fa.dir, priv); err != nil {
+					viol(len(pairs)+hists, "TOOL: copy "+id, err.Error(), replay)
+					continue
+				}
+				om := c38Options(b, priv)
+				om.SetDefaults()
+				if err := c38MergeMeta(&om); err != nil {
+					os.RemoveAll(priv)
+					continue // no metadata-only path for this dimension: nothing to test
+				}
+				if err := c38Build(c, priv); err != nil {
+					viol(len(pairs)+hists, "full re-index after a metadata update fails: "+id, err.Error(), replay)
+					os.RemoveAll(priv)
+					continue
+				}
+				hists++
+				r.Eval(1)
+				r.Nontrivial(id)
+				after := c38Observe(priv)
+				oc := c38Options(c, priv)
+				oc.SetDefaults()
+				st, _ := oc.IndexState()
+				var probs []string
+				if after.err != "" {
+					probs = append(probs, "index unreadable: "+after.err)
+				} else {
+					if after.content != fc.obs.content {
+						probs = append(probs, "searchable content differs from a fresh build under C:\n--- history:\n"+after.content+"\n--- fresh:\n"+fc.obs.content)
+					}
+					if d := c38MetaDiff(after.meta, fc.obs.meta); len(d) > 0 {
+						probs = append(probs, fmt.Sprintf("stored metadata differs from a fresh build under C in %v: %v vs %v", d, c38Pick(after.meta, d), c38Pick(fc.obs.meta, d)))
+					}
+				}
+				if st != index.IndexStateEqual {
+					probs = append(probs, fmt.Sprintf("IndexState under C right after indexing under C = %q, want equal", st))
+				}
+				if len(probs) > 0 {
+					viol(len(pairs)+hists, "index after [index A; metadata update; full re-index C] is not the index of C: "+id, strings.Join(probs, "\n"), replay)
+				}
+				os.RemoveAll(priv)
+			}
+		}
+		r.Set("three_step_histories", hists)
+	}
+
 	{
 		var keys []string
 		for k := range viols {
